@@ -502,6 +502,19 @@ def monitorOp (mu : Mon) (prev : Args) (toks : List String) (implOk : Bool) (_ou
         (match findRaw P p.id, findRaw O p.id with
           | some r, some r' => if edgeOk r.status r'.status then [] else [mk "C05" "C05/stored-status-edge" s!"id={p.id} {r.status}->{r'.status} by {kind}"]
           | _, _ => [])
+    -- the lifecycle as *observed*, whichever query reports it: what the point query said before against what the
+    -- listings say now, and the other way round (a listing that lags behind makes a proposal go Passed → Open)
+    let f5 := f5 ++ (if fresh then [] else
+      let PP := (prev.list "pprops").filterMap parseProp
+      let OP := (cur.list "pprops").filterMap parseProp
+      (PP.flatMap fun p => match findProp O p.id with
+        | some q => if edgeOk p.status q.status then [] else
+            [mk "C05" "C05/status-edge-across-views" s!"id={p.id} Proposal said {p.status}, ListProposals now says {q.status} (after {kind})"]
+        | none => []) ++
+      (P.props.flatMap fun p => match OP.find? (·.id == p.id) with
+        | some q => if edgeOk p.status q.status then [] else
+            [mk "C05" "C05/status-edge-across-views" s!"id={p.id} ListProposals said {p.status}, Proposal now says {q.status} (after {kind})"]
+        | none => []))
     -- ids 1..n, growing by one per successful Propose
     let ids := O.props.map (·.id)
     let f5 := f5 ++
